@@ -28,7 +28,7 @@ type callTarget struct {
 }
 
 func (fc *FuncContract) isSummary() bool {
-	return fc != nil && (len(fc.Requires) > 0 || len(fc.Ensures) > 0 || len(fc.Modifies) > 0 || fc.Trusted || fc.Assumed || len(fc.Transfers) > 0)
+	return fc != nil && (len(fc.Requires) > 0 || len(fc.Ensures) > 0 || len(fc.Modifies) > 0 || fc.Trusted || fc.Assumed || len(fc.Transfers) > 0 || len(fc.Captures) > 0)
 }
 
 // pickContract selects the variant matching the call's dynamic argument types.
@@ -627,7 +627,7 @@ func (fx *FnExec) contractEnv(st *State, tgt callTarget, sig *types.Signature, c
 			for i, fv := range tgt.fn.FreeVars {
 				t := tgt.closure.bindings[i]
 				if pt, isPtr := fv.Type().Underlying().(*types.Pointer); isPtr && tgt.closure.bindLVs[i] != nil {
-					env.vars[fv.Name()] = cval{t: st.load(tgt.closure.bindLVs[i]), typ: pt.Elem(), sort: tgt.closure.bindLVs[i].elemSort}
+					env.vars[fv.Name()] = cval{t: st.load(tgt.closure.bindLVs[i]), typ: pt.Elem(), sort: tgt.closure.bindLVs[i].elemSort, lv: tgt.closure.bindLVs[i], cell: true}
 				} else {
 					env.vars[fv.Name()] = cval{t: t, typ: fv.Type(), sort: fx.sortOf(fv.Type())}
 				}
@@ -712,6 +712,9 @@ func (fx *FnExec) applyContract(st *State, fr *frame, tgt callTarget, sig *types
 		}
 		k(st, nil)
 		return
+	}
+	if fc.Iterates != "" {
+		fx.iterateCallback(st, fr, tgt, args, site, ordName)
 	}
 	// havoc modifies
 	old := st.snapshotHeap()
@@ -860,6 +863,12 @@ func (fx *FnExec) havocTarget(st *State, env *evalEnv, m Expr) {
 			st.heapSet("ghost."+x.Name, full, fx.freshConst("mod."+x.Name, full))
 			return
 		}
+		if v, ok := env.vars[x.Name]; ok && v.cell && v.lv != nil {
+			nv := fx.freshConst("mod."+x.Name, v.lv.elemSort)
+			st.storeLV(v.lv, nv)
+			st.assumeWF(nv, v.lv.typ)
+			return
+		}
 	}
 	evalFail("unsupported modifies target %s", m)
 }
@@ -913,7 +922,7 @@ func (fx *FnExec) doBuiltin(st *State, fr *frame, x *ssa.Call, b *ssa.Builtin) {
 			st.vals[x] = "(strlen " + a + ")"
 		case *types.Map:
 			fx.locksetMap(st, fr, cc.Args[0], x)
-			ks, vs := fx.sortOf(u.Key()), fx.sortOf(u.Elem())
+			ks, vs := fx.mapKV(u)
 			l := "(select " + st.heapGet("MapLen", arrOf("Int")) + " " + a + ")"
 			inH := st.heapGet(mapInName(ks, vs), "(Array Int (Array "+ks+" Bool))")
 			st.assume("(>= " + l + " 0)")
@@ -944,7 +953,10 @@ func (fx *FnExec) doBuiltin(st *State, fr *frame, x *ssa.Call, b *ssa.Builtin) {
 		m, k := arg(0), arg(1)
 		mt := cc.Args[0].Type().Underlying().(*types.Map)
 		fx.locksetMap(st, fr, cc.Args[0], x)
-		st.mapDelete(m, fx.sortOf(mt.Key()), fx.sortOf(mt.Elem()), k)
+		{
+			ks, vs := fx.mapKV(mt)
+			st.mapDelete(m, ks, vs, k)
+		}
 	case "close":
 		c := arg(0)
 		name := fx.ord(fr.fn, x, "call.close")
@@ -1034,4 +1046,172 @@ func (fx *FnExec) doAppend(st *State, fr *frame, x *ssa.Call) {
 		res = "(ite (= " + lt + " 0) " + s + " " + res + ")"
 	}
 	st.vals[x] = res
+}
+
+
+// iterateCallback: the callee invokes a callback (a closure known on this path)
+// an arbitrary number of times. Loop-cut semantics with the closure's contract
+// as the invariant: requires is established here, everything the closure body
+// may modify is havocked, requires is assumed; one symbolic iteration is
+// executed on a forked path and must re-establish requires (its ensures).
+func (fx *FnExec) iterateCallback(st *State, fr *frame, tgt callTarget, args *callArgs, site ssa.Instruction, ordName string) {
+	idx := -1
+	if tgt.fn != nil {
+		for i, p := range tgt.fn.Params {
+			if p.Name() == tgt.fc.Iterates {
+				idx = i
+			}
+		}
+	}
+	if idx < 0 || idx >= len(args.terms) {
+		panic(evalErr{"iterates: no parameter " + tgt.fc.Iterates})
+	}
+	ci := st.clos[args.terms[idx]]
+	if ci == nil {
+		panic(unsupported("iterates: callback is not a closure known on this path"))
+	}
+	ckey := fnKey(ci.fn)
+	var cfc *FuncContract
+	if cs := fx.P.Specs.Funcs[ckey]; len(cs) > 0 {
+		cfc = cs[0]
+		cfc.Bound = true
+	}
+	ctgt := callTarget{fn: ci.fn, fc: cfc, key: ckey, closure: ci}
+	iterVals := func(s *State) *callArgs {
+		ca := &callArgs{}
+		vars := map[string]cval{}
+		for i, p := range ci.fn.Params {
+			v := fx.freshConst("it."+p.Name(), fx.sortOf(p.Type()))
+			s.assumeWF(v, p.Type())
+			ca.terms = append(ca.terms, v)
+			ca.vals = append(ca.vals, p)
+			ca.lvs = append(ca.lvs, nil)
+			vars[fmt.Sprintf("arg%d", i)] = cval{t: v, typ: p.Type(), sort: fx.sortOf(p.Type())}
+		}
+		for _, c := range tgt.fc.IterAssume {
+			env := &evalEnv{fx: fx, st: s, vars: vars}
+			v, err := env.safeEval(c.Expr)
+			if err != nil {
+				panic(fmt.Sprintf("%s:%d: %v", c.File, c.Line, err))
+			}
+			s.assume(v.t)
+		}
+		return ca
+	}
+	mkEnv := func(s *State) *evalEnv {
+		// callback parameters are arbitrary (within iterassume) per iteration
+		return fx.contractEnv(s, ctgt, ci.fn.Signature, nil, iterVals(s))
+	}
+	// establish
+	if cfc != nil {
+		env := mkEnv(st)
+		for i, c := range cfc.Requires {
+			v, err := env.safeEval(c.Expr)
+			if err != nil {
+				panic(fmt.Sprintf("%s:%d: %v", c.File, c.Line, err))
+			}
+			fx.emit(st, fr, "inv-establish", ordName+"/callback/"+clauseName(c, i), v.t, c.Props, c.Src)
+		}
+	}
+	// havoc what the callback may modify: its declared modifies (then checked
+	// against one symbolic iteration below), or else everything its body touches
+	declared := cfc != nil && len(cfc.Modifies) > 0
+	allocAt := st.alloc
+	if declared {
+		env := mkEnv(st)
+		pre := *env
+		pre.old = st.snapshotHeap()
+		pre.inOld = true
+		for _, m := range cfc.Modifies {
+			fx.havocTarget(st, &pre, m)
+		}
+		// objects allocated by earlier iterations
+		ms := &modScan{fx: fx, mods: map[string]modInfo{}, inLoop: map[ssa.Value]bool{}, visited: map[*ssa.Function]bool{ci.fn: true}}
+		for _, b := range ci.fn.Blocks {
+			for _, ins := range b.Instrs {
+				switch v := ins.(type) {
+				case *ssa.Alloc, *ssa.MakeSlice, *ssa.MakeMap, *ssa.MakeChan:
+					ms.inLoop[v.(ssa.Value)] = true
+				}
+			}
+		}
+		for _, b := range ci.fn.Blocks {
+			for _, ins := range b.Instrs {
+				ms.scanInstr(ci.fn, ins, false)
+			}
+		}
+		for _, name := range sortedKeys(ms.mods) {
+			mi := ms.mods[name]
+			if !mi.hasFresh || !strings.HasPrefix(mi.sort, "(Array Int") {
+				continue
+			}
+			cur := st.heapGet(name, mi.sort)
+			nv := fx.freshConst(name+"@iter", mi.sort)
+			st.assume(fmt.Sprintf("(forall ((q.r Int)) (! (=> (<= q.r %s) (= (select %s q.r) (select %s q.r))) :pattern ((select %s q.r))))", allocAt, nv, cur, nv))
+			st.heapSet(name, mi.sort, nv)
+		}
+	} else {
+		ms := &modScan{fx: fx, mods: map[string]modInfo{}, inLoop: map[ssa.Value]bool{}, visited: map[*ssa.Function]bool{ci.fn: true}}
+		for _, b := range ci.fn.Blocks {
+			for _, ins := range b.Instrs {
+				switch v := ins.(type) {
+				case *ssa.Alloc, *ssa.MakeSlice, *ssa.MakeMap, *ssa.MakeChan:
+					ms.inLoop[v.(ssa.Value)] = true
+				}
+			}
+		}
+		for _, b := range ci.fn.Blocks {
+			for _, ins := range b.Instrs {
+				ms.scanInstr(ci.fn, ins, false)
+			}
+		}
+		for _, name := range sortedKeys(ms.mods) {
+			mi := ms.mods[name]
+			old := st.heapGet(name, mi.sort)
+			nv := fx.freshConst(name+"@iter", mi.sort)
+			st.heapSet(name, mi.sort, nv)
+			if mi.freshOnly && strings.HasPrefix(mi.sort, "(Array Int") {
+				st.assume(fmt.Sprintf("(forall ((q.r Int)) (! (=> (<= q.r %s) (= (select %s q.r) (select %s q.r))) :pattern ((select %s q.r))))", allocAt, nv, old, nv))
+			}
+		}
+	}
+	na := fx.freshConst("alloc@iter", "Int")
+	st.assume("(>= " + na + " " + st.alloc + ")")
+	st.alloc = na
+	if cfc != nil {
+		env := mkEnv(st)
+		for _, c := range cfc.Requires {
+			v, err := env.safeEval(c.Expr)
+			if err != nil {
+				panic(fmt.Sprintf("%s:%d: %v", c.File, c.Line, err))
+			}
+			st.assume(v.t)
+		}
+	}
+	// one symbolic iteration on a forked path
+	s2 := st.clone()
+	ca := iterVals(s2)
+	itgt := ctgt
+	itgt.kind = ctInline
+	fx.inlined[ckey] = true
+	iterSnap := s2.snapshotHeap()
+	iterAlloc := s2.alloc
+	fx.inline(s2, fr, itgt, ca, site, func(s3 *State, results []Term) {
+		if declared {
+			// the iteration stayed within the callback's declared frame
+			env := fx.contractEnv(s3, ctgt, ci.fn.Signature, nil, ca)
+			fx.frameCheck(s3, fr, env, ordName+"/callback", cfc.Modifies, iterSnap, iterAlloc, "frame")
+		}
+		if cfc != nil {
+			env := mkEnv(s3)
+			for i, c := range cfc.Requires {
+				v, err := env.safeEval(c.Expr)
+				if err != nil {
+					panic(fmt.Sprintf("%s:%d: %v", c.File, c.Line, err))
+				}
+				fx.emit(s3, fr, "inv-preserve", ordName+"/callback/"+clauseName(c, i), v.t, c.Props, c.Src)
+			}
+		}
+		fx.paths++
+	})
 }
